@@ -15,7 +15,9 @@
 #include "definition.h"
 #include "policy.h"
 
+#include <algorithm>
 #include <type_traits>
+#include <utility>
 
 /// compositional numeric library
 namespace cnl {
@@ -63,9 +65,17 @@ namespace cnl {
                 std::declval<elastic_tag<RhsDigits, RhsNarrowest>>()));
         using result_rep = typename result_tag::rep;
 
+        // the results of division and remainder can have fewer digits than an operand;
+        // the operation is performed in a type able to represent both operands
+        using operand_rep = set_digits_t<
+                result_rep, std::max({digits_v<result_rep>, LhsDigits, RhsDigits})>;
+        using result_type =
+                decltype(Operator()(std::declval<result_rep>(), std::declval<result_rep>()));
+
         [[nodiscard]] constexpr auto operator()(Lhs const& lhs, Rhs const& rhs) const
         {
-            return Operator()(static_cast<result_rep>(lhs), static_cast<result_rep>(rhs));
+            return static_cast<result_type>(
+                    Operator()(static_cast<operand_rep>(lhs), static_cast<operand_rep>(rhs)));
         }
     };
 
